@@ -1474,6 +1474,26 @@ def c19_families(tier, seed, ids=None):
         e = errs[ename](N("q"))
         ss.append(mk(ids, base + [assign("hv", I(1)), assign("dv", fn(["q", "b"], e)), assign("applyq", fn(["h", "x"], call("h", N("x"), I(0)))), assign("topq", fn(["z"], call("applyq", N("dv"), N("z")))),
                                   call("topq", I(7)), huge, call("topq", I(8)), I(1), huge, call("topq", I(9))], {"err": ename, "where": "after a refused statement"}))
+    # the failing call is reached through a call written in a position that the compiled code evaluates more than once or in more than one
+    # place: a while condition (first, second, third evaluation), the condition of an if inside a loop, an iterator expression evaluated
+    # again by an enclosing loop, a loop body, an argument of a call in a condition
+    ratio = assign("ratio", fn(["a", "b"], bin_("/", N("a"), N("b"))))
+    more = assign("more", fn(["n"], bin_(">", call("ratio", I(12), bin_("-", I(3), N("n"))), I(0))))
+    upg = assign("upg", fn(["n"], block([y(call("ratio", I(6), N("n"))), y(I(1))])))
+    sites = {
+        "while condition": fn(["i"], block([wh(call("more", N("i")), assign("i", bin_("+", N("i"), I(1)))), N("i")])),
+        "while condition, loop value used": fn(["i"], wh(call("more", N("i")), assign("i", bin_("+", N("i"), I(1))))),
+        "while condition with an argument call": fn(["i"], block([wh(bin_("&", call("more", call("id", N("i"))), Bo(True)), assign("i", bin_("+", N("i"), I(1)))), N("i")])),
+        "if condition inside a while": fn(["i"], block([assign("k", N("i")), wh(bin_("<", N("k"), I(5)), block([iff(call("more", N("k")), assign("t", I(1))), assign("k", bin_("+", N("k"), I(1)))])), N("k")])),
+        "iterator expression of an inner for": fn(["i"], block([fr(["a"], [call("fromto", N("i"), I(5))], fr(["b"], [call("upg", bin_("-", I(3), N("a")))], assign("t", N("b")))), I(0)])),
+        "while body": fn(["i"], block([wh(bin_("<", N("i"), I(5)), block([assign("t", call("more", N("i"))), assign("i", bin_("+", N("i"), I(1)))])), N("i")])),
+        "while condition in a generator": fn(["i"], block([wh(call("more", N("i")), block([y(N("i")), assign("i", bin_("+", N("i"), I(1)))]))])),
+    }
+    for sname, f in sites.items():
+        for start in (3, 2, 1, 0):          # the failure comes on the first, second, third, fourth evaluation
+            use = call("scan", I(start)) if "generator" not in sname else fr(["v"], [call("scan", I(start))], N("v"))
+            ss.append(mk(ids, base + [IDF, ratio, more, upg, assign("scan", f), use, assign("outer", fn(["z"], block([assign("w", use if use["t"] == "call" else I(0)), N("w")]))), call("outer", I(9)) if use["t"] == "call" else use],
+                         {"err": "repeated-site", "where": "%s, evaluation %d" % (sname, 4 - start)}))
     out = [("every error class x call depth / function-valued parameter / closure / reassigned parameter / loop body / generator / generator of generator", ss, ("value", "report"))]
     rs = gens.random_sessions(60 if tier == "quick" else 3000, seed, "c19", p_ill=0.2, first_id=800000)
     out.append(("random sessions with type confusion", rs, ("value", "report")))
